@@ -62,6 +62,20 @@ def cases(tier, rng):
                 ops += ["recv"]
             out.append("s%d sock REQ / %s" % (k, " / ".join(ops)))
             k += 1
+    # REP serving requests with DIFFERENT envelopes one after the other, some never answered: every reply carries the
+    # envelope of the request it answers (the last one returned), on that requester's connection, nothing elsewhere
+    envs = {"a": [fr(5, 21)], "b": [], "c": [fr(1, 22), fr(16, 23)]}
+    for order in itertools.permutations("abc"):
+        for answered in itertools.product((True, False), repeat=3):
+            if not answered[-1]:
+                continue
+            ops = ["attach a DEALER", "attach b REQ", "attach c DEALER"]
+            for c, ans in zip(order, answered):
+                ops += ["feed %s %s" % (c, W.tok(W.msg(envs[c] + [b"", b"q-" + c.encode()]))), "recv"]
+                if ans:
+                    ops += ["send 722d%02x" % ord(c), "wire a", "wire b", "wire c"]
+            out.append("v%d sock REP / %s" % (k, " / ".join(ops)))
+            k += 1
     # through a ROUTER hop: ROUTER prepends the identity, REP keeps it in the envelope, ROUTER strips it again
     for p in payloads[:20]:
         t = ";".join(W.tok(f) for f in p)
@@ -124,6 +138,34 @@ def judge(line, obs, orc):
                     return "REQ request on the wire is not exactly one delimiter + payload on one connection: %s" % str([g[:60] for g in got])
                 i = j
                 continue
+            i += 1
+    elif kind == "v":
+        envs = {}
+        cur = None
+        i = 0
+        while i < len(po):
+            op, tk = po[i]
+            if op[0] == "feed":
+                envs[op[1]] = W.untok(op[2])
+                cur_feed = op[1]
+            elif op[0] == "recv":
+                want = "r=ok:" + W.tok(b"q-" + cur_feed.encode())
+                if tk != want:
+                    return "REP did not hand over exactly the frames after the first delimiter: %s (expected %s)" % (tk[:80], want)
+                cur = cur_feed
+            elif op[0] == "send":
+                if tk != "s=ok":
+                    return "REP reply failed: " + tk
+                reply = S.frames_of_tok(op[1])
+                feed = envs[cur]
+                env = feed[: len(feed) - len(W.msg([b"q-" + cur.encode()]))]
+                for j in (1, 2, 3):
+                    c = po[i + j][0][1]
+                    got = po[i + j][1].split("=", 1)[1]
+                    want = (env + W.msg(reply)).hex() if c == cur else "-"
+                    if got != want:
+                        return "reply to %s's request: wire of %s is %s, expected %s (the envelope of the request being answered, on its connection only)" % (cur, c, got[:80], want[:80])
+                i += 3
             i += 1
     elif kind == "m":
         if t == "REP":
